@@ -4,6 +4,7 @@ import (
 	"archive/zip"
 	"bytes"
 	"fmt"
+	"regexp"
 	"sort"
 	"strings"
 
@@ -108,6 +109,40 @@ func MinimalPackage(mut func(m map[string]string)) []byte {
 	}
 	zw.Close()
 	return buf.Bytes()
+}
+
+var (
+	reEndTag    = regexp.MustCompile(`</[A-Za-z0-9:]+>`)
+	reStartTag  = regexp.MustCompile(`<([A-Za-z0-9]+:[A-Za-z0-9]+|[A-Za-z][A-Za-z0-9]*)>`)
+	reDqAttr    = regexp.MustCompile(` ([A-Za-z0-9:]+)="([^"'<>]*)"`)
+	reEmptyElem = regexp.MustCompile(`<([A-Za-z0-9:]+)((?: [A-Za-z0-9:]+=(?:"[^"<>]*"|'[^'<>]*'))*)/>`)
+)
+
+// Respell rewrites markup into another legal spelling of the same document: white space before the closing
+// bracket of tags, attribute values in single quotes, empty-element tags as start/end pairs. Character data is
+// not touched (the generators escape quotes and angle brackets in text, so the patterns only see tags).
+func Respell(r *rng.R, x string) string {
+	head := ""
+	if strings.HasPrefix(x, "<?xml") {
+		if i := strings.Index(x, "?>"); i > 0 {
+			head, x = x[:i+2], x[i+2:]
+		}
+	}
+	mode := r.Range(1, 7)
+	if mode&1 != 0 {
+		ws := []string{" ", "\n", "\t", " \r\n "}[r.Intn(4)]
+		x = reEndTag.ReplaceAllStringFunc(x, func(m string) string { return m[:len(m)-1] + ws + ">" })
+		if r.Bool() {
+			x = reStartTag.ReplaceAllString(x, "<$1"+ws+">")
+		}
+	}
+	if mode&2 != 0 {
+		x = reDqAttr.ReplaceAllString(x, " $1='$2'")
+	}
+	if mode&4 != 0 {
+		x = reEmptyElem.ReplaceAllString(x, "<$1$2></$1>")
+	}
+	return head + x
 }
 
 // ForeignOpts tunes the generator.
@@ -678,6 +713,10 @@ func MakeForeign(r *rng.R, opts ForeignOpts) *Foreign {
 		xmlnsW = `xmlns="` + nsW + `" xmlns:w="` + nsW + `"`
 	}
 	doc := hdr + "<" + w.el("document") + " " + xmlnsW + ` xmlns:r="` + nsR + `" xmlns:wp="http://schemas.openxmlformats.org/drawingml/2006/wordprocessingDrawing" xmlns:a="http://schemas.openxmlformats.org/drawingml/2006/main" xmlns:pic="http://schemas.openxmlformats.org/drawingml/2006/picture" xmlns:mc="http://schemas.openxmlformats.org/markup-compatibility/2006"><` + w.el("body") + ">" + body.String() + "</" + w.el("body") + "></" + w.el("document") + ">"
+	if r.Chance(1, 5) {
+		w.feature("respelled-markup")
+		doc = Respell(r, doc)
+	}
 	f.put("word/document.xml", doc)
 	f.put("word/_rels/document.xml.rels", hdr+`<Relationships xmlns="`+relNS+`">`+strings.Join(w.docRels, "")+`</Relationships>`)
 	f.put("_rels/.rels", hdr+`<Relationships xmlns="`+relNS+`">`+strings.Join(pkgRels, "")+`</Relationships>`)
